@@ -224,7 +224,7 @@ def check_affine_out(ctx, case):
     sc, bi = num(s, case['scale_float']), num(b, case['bias_float'])
 
     def do():
-        a, c = F(float(va), True, 40, 20), F(float(vb), True, 40, 20)
+        a, c = F(float(va), True, 48, 20), F(float(vb), True, 48, 20)
         if C.values(a) != [va] or C.values(c) != [vb]:
             raise AssertionError('harness: operands do not hold the split exactly')
         T = F(float(b), sg, w, f, rounding=mode[0], overflow=mode[1], scale=sc, bias=bi)
@@ -236,7 +236,7 @@ def check_affine_out(ctx, case):
             return np.add(a, c, out=T)
         if route == 'scaled-operand':
             # the second operand itself is a scaled object holding vb: the sum is taken on values
-            cs = F(float(vb), True, 40, 20, scale=2, bias=-1)
+            cs = F(float(vb), True, 48, 20, scale=2, bias=-1)
             if C.values(cs) != [vb]:
                 return None
             z = a + cs
